@@ -630,7 +630,7 @@ def insert_admin_ops(rng, ops, variant):
 
 
 def c_effs(effs):
-    return clist([srv.c_eff(e) for e in effs if e[0] != 'BgRaised'])
+    return clist([srv.c_eff(e) for e in effs if e[0] not in ('BgRaised', 'NestedStart')])
 
 
 def tr_case(cfg, ops, mode, coro, admin, mixed):
